@@ -12,7 +12,7 @@ from ..runner import Result, Source, run, sha
 
 ID = "C09"
 LEVEL = "exploration"
-RULE = ("ENUM: all histories of 1-3 (quick: a seed-selected sample; thorough: all, plus sampled length 4) declarations of one identifier, each from "
+RULE = ("ENUM: all histories of 1-3 (quick: all of length <= 2 and a seed-selected seventh of length 3; thorough: all, plus sampled length 4) declarations of one identifier, each from "
         "{none, static, extern, _Thread_local, static _Thread_local, extern _Thread_local} (objects) or {none, static, extern, inline, extern inline, static "
         "inline} (functions) x {file scope, block scope} x {declaration, definition}, followed by an exported use() that references the identifier. HYP: units "
         "with 3-15 identifiers with interleaved histories, block-scope externs, equally named block-scope statics in different functions, tentative arrays "
@@ -189,7 +189,8 @@ def _sig(src, it, gt):
     # recorded finding: an inline definition that another declaration turns into an external definition is never emitted
     missing = gt[0] - it[0]
     extra = it[0] - gt[0]
-    if "inline" in src and missing and not extra and all(k == "func" for _, k, _, _, _ in missing) \
+    # (only when the definition itself carries `inline`: a plain definition that follows an inline declaration is not that finding)
+    if re.search(r"\binline\b[^;{]*\{", src) and missing and not extra and all(k == "func" for _, k, _, _, _ in missing) \
             and {n for n, *_ in missing} == it[2] - gt[2] and it[1] == gt[1]:
         return "inline-then-extern"
     return ""
@@ -207,7 +208,7 @@ def hist_enum(ctx):
         for n in (1, 2, 3):
             for hist in itertools.product(opts, repeat=n):
                 k += 1
-                if ctx.tier == "thorough" or n <= 1 or (k * 2654435761 + ctx.seed * 97) % 7 == 0:
+                if ctx.tier == "thorough" or n <= 2 or (k * 2654435761 + ctx.seed * 97) % 7 == 0:
                     yield {"kind": kind, "hist": [list(h) for h in hist]}
                     if n >= 2 and hist[0][1] == "file" and (kind == "obj" or hist[0][2] == "decl") and any(h[1] == "block" for h in hist[1:]):
                         yield {"kind": kind, "hist": [list(h) for h in hist], "label": True}
